@@ -1,4 +1,4 @@
-// Harness of the Future area (property C10): runs scenarios of client threads using Future<int> /
+// Harness of the Future area (property C10): runs scenarios of client threads using Future<Res> /
 // Future<void> on the REAL thread pool of src/Future.cpp (included below so that the private
 // ThreadPool can be built with small queue sizes and thread limits) under the controlled scheduler
 // of harness/future/sched.cpp.  One forked process per run.  C headers only.
@@ -9,7 +9,7 @@
 //       pol=<np|rand> seed=<n> bound=<step bound> flush=<0|1> split=<0|1> pre=<t,t,...|-> dev=<step:t,step:t,...|-> | <client 1 ops> | <client 2 ops> ...
 //   client ops:  s<f>:<a>:<b> start int future f with body(a,b)   S<f>:<a>:<b> start void future f
 //                j/J join   r result conversion (int futures)   a/A abort   q/Q query flags   d/D destroy + re-create
-//   (lower case = Future<int> f, upper case = Future<void> f).  `a` doubles as the unique id of the call.
+//   (lower case = Future<Res> f, upper case = Future<void> f).  `a` doubles as the unique id of the call.
 // output: the trace (`S`/`O` lines of the scheduler, `E <tid> ...` events, `X ...` simulated-POSIX faults,
 //   `D ...` blocked threads at a deadlock, `V <verdict>`, `F <final summary>`), then `end <exit status>`.
 #define private public
@@ -49,9 +49,24 @@ static Pool* volatile g_pool = 0;       // the pool in use (harness-created or l
 static bool g_poolAlive = false;
 static int g_liveToks = 0, g_execs = 0;
 static long g_bodyMark;
-alignas(16) static char fiMem[NF][sizeof(Future<int>)];
+// Result type of the lower-case futures: a tracked NON-TRIVIAL value (constructed with the Future<A>, assigned by the worker in
+// Future<A>::proc, destroyed by ~Future<A>).  Ledger of its lifetime: a store into, or a read of, an instance whose destructor
+// has already run is reported as an `X` line (the property: join(), the destructor and the result conversion return only after
+// the execution INCLUDING the result store has completed).  Silent otherwise, so the trace format is the one of a plain int.
+struct Res
+{
+  enum { LIVE = 0x600DF00Du, DEAD = 0x0000DEADu };
+  int v; volatile unsigned magic;   // volatile: the store in the destructor must survive (GCC removes stores to an object whose lifetime ends)
+  Res() : v(-1), magic(LIVE) {}
+  Res(int v) : v(v), magic(LIVE) {}
+  Res(const Res& o) : v(o.v), magic(LIVE) { if(o.magic != LIVE) report("copied-from"); }
+  ~Res() { if(magic != LIVE) report("destroyed-twice"); magic = DEAD; }
+  Res& operator=(const Res& o) { if(magic != LIVE) report("stored-into"); if(o.magic != LIVE) report("copied-from"); v = o.v; return *this; }
+  static void report(const char* what) { printf("X result-%s-destroyed-object by=%d\n", what, sched_self()); }
+};
+alignas(16) static char fiMem[NF][sizeof(Future<Res>)];
 alignas(16) static char fvMem[NF][sizeof(Future<void>)];
-static Future<int>* fi(int k) { return (Future<int>*)fiMem[k]; }
+static Future<Res>* fi(int k) { return (Future<Res>*)fiMem[k]; }
 static Future<void>* fv(int k) { return (Future<void>*)fvMem[k]; }
 
 struct Tok
@@ -61,11 +76,11 @@ struct Tok
   Tok(const Tok& o) : v(o.v), copy(true) { ++g_liveToks; printf("E %d rec-new %d\n", sched_self(), v); }
   ~Tok() { if(copy) { --g_liveToks; printf("E %d rec-del %d\n", sched_self(), v); } }
 };
-static int bodyInt(const Tok& a, int b)
+static Res bodyInt(const Tok& a, int b)
 {
   ++g_execs; printf("E %d exec %d %d\n", sched_self(), a.v, b);
   nv_yield("body", &g_bodyMark); nv_result(&g_bodyMark, (unsigned long long)a.v);
-  return a.v * 100 + b;
+  return Res(a.v * 100 + b);
 }
 static void bodyVoid(const Tok& a, int b)
 {
@@ -149,19 +164,19 @@ static uint clientProc(void* param)
     case 'S': { usedV[f] = true; Tok t(o.a); fv(f)->start(bodyVoid, t, o.b); printf("E %d started g%d %d\n", me, f, o.a); break; }
     case 'j': fi(f)->join(); printf("E %d joined f%d\n", me, f); break;
     case 'J': fv(f)->join(); printf("E %d joined g%d\n", me, f); break;
-    case 'r': { int v = *fi(f); printf("E %d result f%d %d\n", me, f, v); break; }
+    case 'r': { const Res& rr = *fi(f); if(rr.magic != Res::LIVE) Res::report("read-from"); int v = rr.v; printf("E %d result f%d %d\n", me, f, v); break; }
     case 'a': fi(f)->abort(); printf("E %d abort f%d\n", me, f); break;
     case 'A': fv(f)->abort(); printf("E %d abort g%d\n", me, f); break;
     case 'q': printf("E %d query f%d aborted=%d finished=%d aborting=%d\n", me, f, (int)fi(f)->isAborted(), (int)fi(f)->isFinished(), (int)fi(f)->isAborting()); break;
     case 'Q': printf("E %d query g%d aborted=%d finished=%d aborting=%d\n", me, f, (int)fv(f)->isAborted(), (int)fv(f)->isFinished(), (int)fv(f)->isAborting()); break;
-    case 'd': fi(f)->~Future<int>(); printf("E %d destroyed f%d\n", me, f); new (fiMem[f]) Future<int>; break;
+    case 'd': fi(f)->~Future<Res>(); printf("E %d destroyed f%d\n", me, f); new (fiMem[f]) Future<Res>; break;
     case 'D': fv(f)->~Future<void>(); printf("E %d destroyed g%d\n", me, f); new (fvMem[f]) Future<void>; break;
     }
   }
   // the client's futures go out of scope: the destructor joins
   for(int f = 0; f < NF; ++f)
   {
-    if(usedI[f]) { fi(f)->~Future<int>(); printf("E %d destroyed f%d\n", me, f); new (fiMem[f]) Future<int>; }
+    if(usedI[f]) { fi(f)->~Future<Res>(); printf("E %d destroyed f%d\n", me, f); new (fiMem[f]) Future<Res>; }
     if(usedV[f]) { fv(f)->~Future<void>(); printf("E %d destroyed g%d\n", me, f); new (fvMem[f]) Future<void>; }
   }
   return 0;
@@ -214,7 +229,7 @@ static int runScenario(char* line)
 #else
   printf("H 0\n");
 #endif
-  for(int k = 0; k < NF; ++k) { new (fiMem[k]) Future<int>; new (fvMem[k]) Future<void>; }
+  for(int k = 0; k < NF; ++k) { new (fiMem[k]) Future<Res>; new (fvMem[k]) Future<void>; }
   if(!lazy)
   {
     g_pool = new Pool((usize)mn, (usize)mx, (usize)q); g_poolAlive = true;
